@@ -74,6 +74,6 @@ Mul2x2Exact ==
 ProductPolynomial ==
   /\ a1 * b1 >= 0 /\ a1 * b1 <= MaxProd
   /\ Val2(a1, a2) * Val2(b1, b2) = a1 * b1 + B * (a1 * b2 + a2 * b1) + B * B * (a2 * b2)
-\* planted FALSE lemma: eight products per column still fit
-PlantedFalse == (col <= 8 * MaxProd /\ c <= CarryMax) => col + c <= TlcMax
+\* planted FALSE lemma: nine products per column still fit (eight would: 8 * MaxProd + CarryMax = 2147336200)
+PlantedFalse == (col <= 9 * MaxProd /\ c <= CarryMax) => col + c <= TlcMax
 =============================================================================
